@@ -182,6 +182,10 @@ def _int_extra_ranges():
 class ExcludedInput(PathAbort):
     """a stated exclusion of the claim was hit (counted)"""
 
+    def __init__(self, label):
+        PathAbort.__init__(self, "assume")
+        self.label = label
+
 
 def exclude(label):
     E.assume_counts[label] = E.assume_counts.get(label, 0) + 1
@@ -192,7 +196,7 @@ def m_int(x=0, base=10):
     if isinstance(x, SInt):
         return x
     if isinstance(x, SBool):
-        return SInt(z3.If(x.z, bv(1), bv(0)), 2)
+        return SInt(z3.If(x.z, bv(1), bv(0)), 0, 1)
     if isinstance(x, SStr):
         if not x.e:
             raise ValueError("invalid literal for int()")
@@ -219,7 +223,7 @@ def m_int(x=0, base=10):
                 mag *= 10
             else:
                 raise Unsupported("int(text, base=%r)" % base)
-        return SInt(E.bind(val), mag)
+        return SInt(E.bind(val, 0, mag - 1), 0, mag - 1)
     if isinstance(x, SBytes):
         raise Unsupported("int(bytes)")
     if base != 10:
@@ -264,7 +268,7 @@ def _hexdigit_lower(z4):
 def int_to_hex(v, ndigits=None, upper=False):
     """hex digits of a non-negative symbolic int; forks on digit count unless ndigits given (zero padded, value must fit)"""
     if not isinstance(v, SInt):
-        v = SInt(bv(int(v)), abs(int(v)) + 1)
+        v = SInt(bv(int(v)), int(v), int(v))
     if truth(v < 0):
         raise Unsupported("hex of negative symbolic int")
     if ndigits is None:
@@ -276,7 +280,7 @@ def int_to_hex(v, ndigits=None, upper=False):
         while not truth(v < 16 ** nd):
             nd += 1
     f = _hexdigit_upper if upper else _hexdigit_lower
-    return [E.bind(f(z3.LShR(v.z, 4 * (nd - 1 - i)) & 15)) for i in range(nd)]
+    return [E.bind(f(z3.LShR(v.z, 4 * (nd - 1 - i)) & 15), 48, 70 if upper else 102) for i in range(nd)]
 
 
 def m_hex(v):
@@ -298,12 +302,12 @@ def m_ord(x):
         if len(x.e) != 1:
             raise TypeError("ord() expected a character, but string of length %d found" % len(x.e))
         c = x.e[0]
-        return c if isinstance(c, int) else SInt(c, CP_MAX + 1)
+        return c if isinstance(c, int) else SInt(c, *E.interval(c, (0, CP_MAX)))
     if isinstance(x, SBytes):
         if len(x.e) != 1:
             raise TypeError("ord() expected a character")
         c = x.e[0]
-        return c if isinstance(c, int) else SInt(c, 256)
+        return c if isinstance(c, int) else SInt(c, *E.interval(c, (0, 255)))
     return ord(x)
 
 
@@ -737,6 +741,8 @@ def call(f, *args, **kw):
         return f(*args, **kw)
     if f is _REAL_UTF8_INCDEC:
         return SymUtf8Decoder(*args, **kw)
+    if _dunder(f, "__call__") is not None:
+        return f(*args, **kw)
     m = BUILTIN_MODELS.get(f) if tf in (type, types.BuiltinFunctionType) else None
     if m is not None:
         return m(*args, **kw)
